@@ -2,7 +2,7 @@
    Statements only, one group per allocator family; the models are tied to the code by replay of
    implementation logs (see the evidence file for what was replayed on this run). *)
 From Coq Require Import ZArith List Bool.
-From FM Require Import FixedStack SmallCarve PoolSpec SlotProofs ListLib PoolSpecProofs Stack StackProofs Iteration IterationProofs.
+From FM Require Import FixedStack SmallCarve PoolSpec SlotProofs ListLib PoolSpecProofs Stack StackProofs Iteration IterationProofs InvalidRelease SmallList SmallListProofs.
 Import ListNotations.
 Local Open Scope Z_scope.
 
@@ -81,3 +81,33 @@ Theorem C01_iteration_live_memory_unmodified : forall fence fill, 0 <= fence -> 
     snd w <= 0 \/ a_ptr a + a_size a <= fst w \/ fst w + snd w <= a_ptr a.
 Proof. exact writes_avoid_live. Qed.
 Print Assumptions C01_iteration_live_memory_unmodified.
+
+(* ----- the small free list itself (Exec model of detail::small_free_memory_list: chunk list, free chains, cursors) ----- *)
+(* after any history of insert / allocate / deallocate within the interface's preconditions, starting from the empty list:
+   the nodes that are out are pairwise disjoint, none of them is on a free chain, and the node handed out next is disjoint
+   from every one of them *)
+Theorem C01_small_list_live_nodes_disjoint : forall ns os g, 0 < ns -> grun {| g_l := sm_empty ns; g_live := [] |} os = Some g ->
+  NoDup (g_live g) /\
+  (forall a b, In a (g_live g) -> In b (g_live g) -> a <> b -> a + ns <= b \/ b + ns <= a) /\
+  (forall a, In a (g_live g) -> ~ In a (free_addrs (sm_ns (g_l g)) (sm_chunks (g_l g)))) /\
+  (forall g' , gstep g GAlloc = Some g' -> exists p, g_live g' = p :: g_live g /\ forall a, In a (g_live g) -> p + ns <= a \/ a + ns <= p).
+Proof. exact small_list_live_nodes_disjoint. Qed.
+Print Assumptions C01_small_list_live_nodes_disjoint.
+
+(* every node the list ever hands out lies inside memory given to insert(): the nodes a block adds are inside that block *)
+Theorem C01_small_list_nodes_inside_inserted_memory : forall l mem size, SmInv l -> 0 < size ->
+  (forall c, In c (sm_chunks l) -> c_end (sm_ns l) c <= mem \/ mem + size <= c_mem c - sm_cmo) ->
+  let l' := sm_insert l mem size in
+  SmInv l' /\ sm_capacity l' = sm_capacity l + s_nodes sm_cmo sm_cmax sm_calign (sm_ns l) size /\
+  (exists new, Permutation.Permutation (free_addrs (sm_ns l') (sm_chunks l')) (new ++ free_addrs (sm_ns l) (sm_chunks l)) /\
+               forall a, In a new -> mem <= a /\ a + sm_ns l <= mem + size).
+Proof. exact sm_insert_spec. Qed.
+Print Assumptions C01_small_list_nodes_inside_inserted_memory.
+
+Example C01_small_list_nonvacuous :
+  match grun {| g_l := sm_empty 8; g_live := [] |} [GIns 4096 80; GIns 0 64; GAlloc; GAlloc; GAlloc; GAlloc; GAlloc; GDealloc 4128; GAlloc; GIns 8192 3000; GAlloc] with
+  | Some g => g_live g = [4136; 4128; 56; 48; 40; 32] /\ sm_capacity (g_l g) = 6 + 4 + 255 + 112 - 6
+  | None => False
+  end.
+Proof. vm_compute. split; reflexivity. Qed.
+
